@@ -110,7 +110,7 @@ class C17(Prop):
         deep = st.fixed_dictionaries({"kind": st.just("deep"), "depth": st.sampled_from([998, 999, 1000, 1001, 1002, 1500]),
                                       "shape": st.sampled_from(["O", "A", "OA", "AO", "OOA"]),
                                       "what": st.sampled_from(["equal", "equal", "leaf_change", "add_at_bottom", "remove_at_bottom"])})
-        return st.one_of(*([main] * 40 + [deep]))
+        return gens.weighted((59, main), (1, deep))
 
     def second_round(self, lib, pf, pt, rnd, stats):
         """history: the inputs of a generation (whose members it may have reordered) are edited through the core API -
